@@ -294,7 +294,7 @@ func init() {
 			"well-formedness is exactly the statement's precondition; optional elements carry the table identifier in Iei (type-1: in the octet's high nibble)",
 			"bounds come from spec/messages.json",
 		},
-		Oracles: map[string]func(*core.Ctx, *core.Case){"roundtrip": c02Roundtrip, "batch": c02Batch, "cold-concurrent": coldConcurrent},
+		Oracles: map[string]func(*core.Ctx, *core.Case){"roundtrip": c02Roundtrip, "batch": c02Batch, "cold-concurrent": coldConcurrent, "receive-buffer": c03ReceiveBuffer},
 	}
 	p.Floors = func(tier string, cov map[string]map[string]int64, cnt map[string]int64) []string {
 		sp, err := codecSpec()
@@ -473,6 +473,8 @@ func init() {
 		}
 		us = append(us, domainUnits(sp, sp.Messages, tier, 30, wellFormed)...)
 		us = append(us, bigUnits(sp.Messages, tier, 80, wellFormed)...)
+		// decoding the library's own encodings into a receiver that is used again and again
+		us = append(us, reuseUnits(sp, "receive-buffer", 25, 500)...)
 		us = append(us, coldUnit("nas.Message", "encode", "decode"))
 		return us
 	}
